@@ -37,7 +37,7 @@ import (
 )
 
 type kase struct {
-	Kind   string `json:"kind"` // world | rawpull
+	Kind   string `json:"kind"` // world | rawpull | hasmany
 	Seed   uint64 `json:"seed"`
 	Ops    int    `json:"ops"`
 	Remote string `json:"remote,omitempty"` // "" = file remote through faulty://, "http" = in-process remotesrv
@@ -1397,6 +1397,8 @@ func main() {
 			switch k.Kind {
 			case "rawpull":
 				runRawPull(e, m, k)
+			case "hasmany":
+				runHasMany(e, k)
 			default:
 				runWorld(e, m, k)
 			}
@@ -1433,6 +1435,11 @@ func main() {
 			k.Remote = "http"
 		}
 		run(k)
+	}
+	run(kase{Kind: "hasmany", Seed: e.Rng.U64() % 1000000})
+	if e.Thorough() {
+		// more than 16384 chunks: 600k rows of ~150 bytes
+		run(kase{Kind: "hasmany", Seed: e.Rng.U64() % 1000000, Ops: 600000})
 	}
 	nr := e.N(4, 12)
 	for i := 0; i < nr; i++ {
